@@ -2015,6 +2015,9 @@ cmd_ical(EV_P_ int ofd, ical_parser_t cmd[static 1U], ncred_t cred)
 			if (UNLIKELY(ins.t == NULL)) {
 				continue;
 			}
+			/* the parser leaves O alone for SCHE instructions,
+			 * the reply has to go out under the task's uid though */
+			ins.o = ins.t->oid;
 			/* and otherwise inject him */
 			if (UNLIKELY(_inject_task1(EV_A_ ins.t, cred.u) < 0)) {
 				/* reply with REQUEST-STATUS:x */
